@@ -156,10 +156,25 @@ const (
 	cSet
 	cRefLit
 	cRefSet
+	nDirect // constructions that hand the typed value over as it is
+	// text constructions (text.go): the value is text which the library reads again
+	xDefTaken    = iota - 1 // "${src:D}", src is set: its rendering is read again
+	xErrTaken               // "${src:?msg}"
+	xDefUsed                // "${absent:TEXT}"
+	xAlt                    // "${other:+TEXT}"
+	xConcat                 // "${hi}${lo}", TEXT cut in two string settings
+	xLitRef                 // "TE${lo}" / "${hi}XT"
+	xResolver               // "${ENVX}", a Resolve option answers TEXT
+	xResolverDef            // "${ENVX:D}", the same inside an expansion with default
+	xFlag                   // -E style flag value f=TEXT
 	nCons
 )
 
-var consNames = [nCons]string{"literal", "set", "ref-literal", "ref-set"}
+var consNames = [nCons]string{"literal", "set", "ref-literal", "ref-set",
+	"x-default-taken", "x-error-form", "x-default-used", "x-alternative", "x-joined-refs", "x-literal+ref", "x-resolver", "x-resolver-in-default", "x-flag"}
+
+// rendered: the library renders the typed value to text itself
+func rendered(cons int) bool { return cons == xDefTaken || cons == xErrTaken }
 
 var varOpts = []ucfg.Option{ucfg.PathSep("."), ucfg.VarExp}
 
@@ -211,6 +226,11 @@ func build(s src, cons int) (*built, error) {
 	if err != nil {
 		return nil, err
 	}
+	return b.children()
+}
+
+func (b *built) children() (*built, error) {
+	var err error
 	if b.m, err = b.c.Child("m", -1, b.opts...); err != nil {
 		return nil, fmt.Errorf("Child(m): %w", err)
 	}
@@ -227,6 +247,14 @@ type runner struct {
 	res     *harness.R
 	s       src
 	exp     []expectation // by kind index
+	expR    []expectation // text routes, the library renders s itself (nil: not applicable)
+	expT    []expectation // text routes, s as the text ru.text (nil: s has no text)
+	text    string
+	tsrc    src    // the text as a string setting
+	tinfo   string // class of the value the text route carries (monitor)
+	tHigh   bool   // ... an integer in [2^63, 2^64)
+	tNoF64  bool   // ... an integer no float64 holds
+	sub     subChoice
 	cfg     [nCons]*built
 	cfgErr  [nCons]bool
 	vclass  string
@@ -236,12 +264,55 @@ type runner struct {
 	canary [nCons]int
 }
 
-func newRunner(res *harness.R, s src, verbose bool) *runner {
+func newRunner(res *harness.R, r *rand.Rand, s src, verbose bool) *runner {
 	ru := &runner{res: res, s: s, verbose: verbose}
 	ru.exp = make([]expectation, len(kinds))
 	for i, k := range kinds {
 		ru.exp[i] = expect(s, k)
 	}
+	// text routes
+	hasText := true
+	switch s.kind {
+	case 'i':
+		ru.text = strconv.FormatInt(s.i, 10)
+	case 'u':
+		ru.text = strconv.FormatUint(s.u, 10)
+	case 'b':
+		ru.text = strconv.FormatBool(s.b)
+	case 's':
+		ru.text, hasText = s.s, safeText(s.s)
+	default:
+		hasText = false // floats: every spelling is a string value of its own
+	}
+	ru.sub = drawSub(r, ru.text)
+	if s.kind != 's' || hasText {
+		ru.expR = make([]expectation, len(kinds))
+		for i, k := range kinds {
+			ru.expR[i] = expectText(s, k)
+		}
+	}
+	if hasText {
+		ru.tsrc = srcS(ru.text)
+		ru.expT = ru.expR
+		if s.kind != 's' {
+			ru.expT = make([]expectation, len(kinds))
+			for i, k := range kinds {
+				ru.expT[i] = expectText(ru.tsrc, k)
+			}
+		}
+		ti := classifyText(ru.text)
+		ru.tinfo = ti.class
+		if ti.v != nil {
+			ru.tHigh = ti.v.Cmp(maxI64b) > 0 && ti.v.Cmp(maxU64b) <= 0
+			ru.tNoF64 = cmpFloatInt(nearestFloat(ti.v), ti.v) != 0
+		}
+	} else if s.kind == 'f' {
+		ru.tinfo = "rendered-float"
+	} else {
+		ru.tinfo = "none"
+		res.Ev("text_value_not_a_word", 1)
+	}
+	res.SetAdd("text_value_class", ru.tinfo)
 	ru.vclass, ru.nontriv = valueClass(s)
 	vk := s.kindName()
 	if s.kind == 's' {
@@ -263,7 +334,13 @@ func (ru *runner) config(cons int) *built {
 	}
 	var b *built
 	var err error
-	panicked, pv, where := harness.Safe(func() { b, err = build(ru.s, cons) })
+	panicked, pv, where := harness.Safe(func() {
+		if cons < nDirect {
+			b, err = build(ru.s, cons)
+		} else {
+			b, err = buildText(ru.s, ru.text, cons, ru.sub)
+		}
+	})
 	ru.res.Eval(1)
 	switch {
 	case panicked:
@@ -287,6 +364,46 @@ func topFrame(where string) string {
 		return "?"
 	}
 	return f
+}
+
+// applies reports whether the value can go through the construction.
+func (ru *runner) applies(cons int) bool {
+	if cons < nDirect {
+		return true
+	}
+	if rendered(cons) && ru.expR == nil {
+		return false
+	}
+	return textApplies(cons, ru.s, ru.text, ru.expT != nil, ru.sub)
+}
+
+// expFor: the expectation and the name of the source in signatures.
+func (ru *runner) expFor(cons, ki int) (*expectation, string) {
+	switch {
+	case cons < nDirect:
+		return &ru.exp[ki], ru.s.kindName()
+	case rendered(cons):
+		return &ru.expR[ki], "reparsed-" + ru.s.kindName()
+	}
+	return &ru.expT[ki], "reparsed-text"
+}
+
+// textMonitors: what went through a text route.
+func (ru *runner) textMonitors(cons int) {
+	if cons < nDirect {
+		return
+	}
+	ru.res.Ev("text_conversions", 1)
+	ru.res.Ev("text_form_"+consNames[cons], 1)
+	if ru.tHigh {
+		ru.res.Ev("text_integer_in_[2^63,2^64)", 1)
+	}
+	if ru.tNoF64 {
+		ru.res.Ev("text_integer_no_float64_holds", 1)
+	}
+	if cons == xResolver || cons == xResolverDef {
+		ru.res.SetAdd("text_resolver_parse_config", parseCfgs[ru.sub.pcfg].name)
+	}
 }
 
 func kindIndex(k *tkind) int {
@@ -349,6 +466,7 @@ func (ru *runner) unpack(cons int, ki int, t *target, route int) (didPanic bool)
 		}
 	})
 	ru.res.Eval(1)
+	ru.textMonitors(cons)
 	rname := consNames[cons] + "/" + routeNames[route]
 	ru.res.SetAdd("target", t.name)
 	ru.res.SetAdd("route", rname)
@@ -356,7 +474,7 @@ func (ru *runner) unpack(cons int, ki int, t *target, route int) (didPanic bool)
 		ru.res.Key(ru.vclass + "|" + t.name + "|" + rname)
 	}
 	call := func() string {
-		return fmt.Sprintf("%s (%s) unpacked into %s as %s", ru.s, consNames[cons], t.name, routeNames[route])
+		return fmt.Sprintf("%s (%s) unpacked into %s as %s", ru.s, ru.consDesc(cons), t.name, routeNames[route])
 	}
 	if panicked {
 		ru.res.Violate(fmt.Sprintf("panic:%s-target@%s", variantKind(t), topFrame(where)), "panic %q at %s: %s", pv, where, call())
@@ -372,8 +490,30 @@ func (ru *runner) unpack(cons int, ki int, t *target, route int) (didPanic bool)
 			got = got.Elem()
 		}
 	}
-	ru.judge(ki, t.k, t.k.name, err, got, present, call)
+	ru.judge(cons, ki, t.k, t.k.name, err, got, present, call)
 	return false
+}
+
+// consDesc describes the construction for a witness.
+func (ru *runner) consDesc(cons int) string {
+	if cons < nDirect {
+		return consNames[cons]
+	}
+	d := consNames[cons]
+	if !rendered(cons) {
+		d += fmt.Sprintf(" text %q", ru.text)
+	}
+	switch cons {
+	case xDefTaken, xErrTaken:
+		d += fmt.Sprintf(" default %q src-via-set=%v", ru.sub.def, ru.sub.viaSet)
+	case xConcat:
+		d += fmt.Sprintf(" cut at %d", ru.sub.split)
+	case xLitRef:
+		d += fmt.Sprintf(" cut at %d literal-first=%v", ru.sub.split, ru.sub.litFirst)
+	case xResolver, xResolverDef:
+		d += " parse." + parseCfgs[ru.sub.pcfg].name
+	}
+	return d
 }
 
 func variantKind(t *target) string {
@@ -414,18 +554,19 @@ func (ru *runner) getter(cons int, gi int) {
 		}
 	})
 	ru.res.Eval(1)
+	ru.textMonitors(cons)
 	rname := consNames[cons] + "/getter"
 	ru.res.SetAdd("target", g.name+"()")
 	ru.res.SetAdd("route", rname)
 	if ru.nontriv {
 		ru.res.Key(ru.vclass + "|" + g.name + "()|" + rname)
 	}
-	call := func() string { return fmt.Sprintf("%s (%s) read with %s()", ru.s, consNames[cons], g.name) }
+	call := func() string { return fmt.Sprintf("%s (%s) read with %s()", ru.s, ru.consDesc(cons), g.name) }
 	if panicked {
 		ru.res.Violate("panic:getter-"+g.name+"@"+topFrame(where), "panic %q at %s: %s", pv, where, call())
 		return
 	}
-	ru.judge(kindIndex(k), k, g.name+"()", err, got, true, call)
+	ru.judge(cons, kindIndex(k), k, g.name+"()", err, got, true, call)
 }
 
 func (ru *runner) outcome(k *tkind, o string) {
@@ -463,9 +604,8 @@ func errClass(err error) string {
 
 // judge compares one observation with the expectation for (value, kind).
 // to names the target in signatures: the kind for Unpack, "Int()" etc. for getters.
-func (ru *runner) judge(ki int, k *tkind, to string, err error, got reflect.Value, present bool, call func() string) {
-	e := &ru.exp[ki]
-	from := ru.s.kindName()
+func (ru *runner) judge(cons, ki int, k *tkind, to string, err error, got reflect.Value, present bool, call func() string) {
+	e, from := ru.expFor(cons, ki)
 	if err != nil {
 		ru.res.SetAdd("error_reason", errClass(err))
 		switch e.mode {
@@ -519,10 +659,10 @@ func (ru *runner) judge(ki int, k *tkind, to string, err error, got reflect.Valu
 }
 
 // runFull: the whole cross product for one value.
-func runFull(res *harness.R, s src, verbose bool) {
-	ru := newRunner(res, s, verbose)
+func runFull(res *harness.R, r *rand.Rand, s src, verbose bool) {
+	ru := newRunner(res, r, s, verbose)
 	for ki := range kinds {
-		for cons := 0; cons < nCons; cons++ {
+		for cons := 0; cons < nDirect; cons++ {
 			for _, t := range targetsOf[ki] {
 				for route := 0; route < nRoutes; route++ {
 					if t == namedString && route == rMap && ru.canary[cons] != 0 {
@@ -534,7 +674,23 @@ func runFull(res *harness.R, s src, verbose bool) {
 		}
 	}
 	for gi := range getters {
-		for cons := 0; cons < nCons; cons++ {
+		for cons := 0; cons < nDirect; cons++ {
+			ru.getter(cons, gi)
+		}
+	}
+	// text routes: every form x every target type, through one route each
+	// (the routes differ in how the target is reached, not in how the text is read)
+	for cons := nDirect; cons < nCons; cons++ {
+		if !ru.applies(cons) {
+			res.Ev("text_form_not_applicable", 1)
+			continue
+		}
+		for ki := range kinds {
+			for _, t := range targetsOf[ki] {
+				ru.unpack(cons, ki, t, r.Intn(nRoutes))
+			}
+		}
+		for gi := range getters {
 			ru.getter(cons, gi)
 		}
 	}
@@ -543,13 +699,30 @@ func runFull(res *harness.R, s src, verbose bool) {
 // runSampled: every kind and getter once, each through a random
 // (construction, variant, route).
 func runSampled(res *harness.R, r *rand.Rand, s src, verbose bool) {
-	ru := newRunner(res, s, verbose)
+	ru := newRunner(res, r, s, verbose)
 	for ki := range kinds {
 		ts := targetsOf[ki]
-		ru.unpack(r.Intn(nCons), ki, ts[r.Intn(len(ts))], r.Intn(nRoutes))
+		ru.unpack(r.Intn(nDirect), ki, ts[r.Intn(len(ts))], r.Intn(nRoutes))
 	}
 	for gi := range getters {
-		ru.getter(r.Intn(nCons), gi)
+		ru.getter(r.Intn(nDirect), gi)
+	}
+	// and once more through a random text route each
+	var forms []int
+	for cons := nDirect; cons < nCons; cons++ {
+		if ru.applies(cons) {
+			forms = append(forms, cons)
+		}
+	}
+	if len(forms) == 0 {
+		return
+	}
+	for ki := range kinds {
+		ts := targetsOf[ki]
+		ru.unpack(forms[r.Intn(len(forms))], ki, ts[r.Intn(len(ts))], r.Intn(nRoutes))
+	}
+	for gi := range getters {
+		ru.getter(forms[r.Intn(len(forms))], gi)
 	}
 }
 
@@ -557,7 +730,7 @@ func (check) Run(seed int64, tier string, idx int, verbose bool) harness.Result 
 	res := harness.NewR(idx)
 	switch {
 	case idx < len(table):
-		runFull(res, table[idx], verbose)
+		runFull(res, rand.New(rand.NewSource(harness.Mix(seed, "C03", idx))), table[idx], verbose)
 		if idx < 2 {
 			res.Sample = map[string]interface{}{"value": table[idx].String(), "targets": len(targets), "constructions": consNames, "routes": routeNames}
 		}
